@@ -1,0 +1,10 @@
+//go:build verif
+// +build verif
+
+package identity
+
+// VerifSetETHWitness / VerifIsETHWitness let a harness that hosts several
+// application instances in one process switch the per-process witness flag.
+func VerifSetETHWitness(v bool) { isETHWitness = v }
+
+func VerifIsETHWitness() bool { return isETHWitness }
